@@ -28,11 +28,11 @@ for m in sorted(glob.glob('/verif/seeded/*/meta.json')):
     t14.append(f"| {n} | {j['property']} | {needs} | {res[:420]} |")
 man = json.load(open('/verif/MANIFEST.json'))
 t11 = ["| property | spec modules | last evidence (tier, TLC states, scenarios replayed / traces validated, distinct non-trivial, known-finding classes hit) | seeded changes caught |", "|---|---|---|---|"]
-mods = {"C01": "Lattice, BoolOps, Trace_BoolOps, CurvedOps", "C02": "Lattice, BoolOps, CurvedOps", "C03": "Curves, Trace_Curves", "C04": "Stroke",
-        "C05": "Dash, Trace_Dash", "C06": "Query", "C07": "Mat, Transform", "C08": "Bounds", "C09": "Measure", "C10": "Builder, Trace_Builder",
-        "C11": "PathText", "C12": "GState, Trace_GState", "C13": "PDFDoc, Trace_PDFDoc", "C14": "Raster", "C15": "Mat, Context, Trace_Context",
+mods = {"C01": "Lattice, BoolOps, Trace_BoolOps, CurvedOps", "C02": "Lattice, BoolOps, CurvedOps, Scenes, LatCurves/Query", "C03": "Curves, Trace_Curves", "C04": "Stroke, StrokeCurves, Trace_StrokeCurves",
+        "C05": "Dash, Trace_Dash", "C06": "LatCurves, CurveGen, Query", "C07": "Mat, LatCurves, Transform, Trace_Transform", "C08": "LatCurves, Bounds", "C09": "LatCurves, Measure", "C10": "Builder, Trace_Builder",
+        "C11": "PathText", "C12": "GState, Trace_GState", "C13": "PDFDoc, Trace_PDFDoc", "C14": "GState, Raster", "C15": "Mat, Context, Trace_Context",
         "C16": "KnuthPlass, Layout, Trace_Layout", "C17": "KnuthPlass, Trace_KnuthPlass", "C18": "FontEmbed, Trace_FontEmbed", "C19": "SVGDoc",
-        "C20": "Pools, PoolsCounter, Trace_Pools"}
+        "C20": "Pools, PoolsCounter, Trace_Pools, BoolOps"}
 seeded = {}
 for m in glob.glob('/verif/seeded/*/meta.json'):
     j = json.load(open(m)); seeded.setdefault(j['property'], []).append(bool(j.get('caught')))
